@@ -26,7 +26,7 @@ func fuzzSeeds() [][]byte {
 	if repo == "" {
 		repo = "/repo"
 	}
-	out := [][]byte{[]byte(demoSpokfile), []byte("task t(\"a\", b) -> (\"c\", D) {\n\techo {{.X}}\n}\n"), []byte("#\n# a\ntasky := join(\"a\", \"b\")\n")}
+	out := [][]byte{[]byte(demoSpokfile), []byte("task t(\"a\", b) -> (\"c\", D) {\n\techo {{.X}}\n}\n"), []byte("#\n# a\ntasky := join(\"a\", \"b\")\n"), []byte("A(\"(Line 0)0"), []byte("X := \"\n\n3 |\t(Line 3)\nY")}
 	if b, err := os.ReadFile(filepath.Join(repo, "spokfile")); err == nil {
 		out = append(out, b)
 	}
